@@ -94,7 +94,8 @@ DoGetOrAdd  == \E x \in Decls : Step("GetOrAdd", x)
 DoRemoveAll == \E x \in Decls : Step("RemoveAll", x)
 DoChangeTo  == \E x \in Decls : Step("ChangeTo", x)
 DoHand      == \E x \in Decls : Step("Hand", x)
-Next == DoInsert \/ DoAdd \/ DoPublicAdd \/ DoGetOrAdd \/ DoRemoveAll \/ DoChangeTo \/ DoHand
+DoHandGetOrAdd == \E x \in Decls : Step("HandGetOrAdd", x)
+Next == DoInsert \/ DoAdd \/ DoPublicAdd \/ DoGetOrAdd \/ DoRemoveAll \/ DoChangeTo \/ DoHand \/ DoHandGetOrAdd
 Spec == Init /\ [][Next]_<<st, depth>>
 ViewSt == st
 
